@@ -10,6 +10,9 @@ import (
 )
 
 func main() {
+	if len(os.Args) == 2 && os.Args[1] == "racepass" {
+		os.Exit(props.RacePass())
+	}
 	if len(os.Args) < 3 {
 		fmt.Println("usage: vcheck <ID> <quick|thorough> | vcheck replay <file>")
 		os.Exit(2)
